@@ -739,9 +739,12 @@ class OverlapRunner:
                         seen.setdefault(k, set()).add(v)
                     events.append(["a" + (",".join(f"{k}:{v}" for k, v in body) or "-"), f"m{moved}"])
                 else:
-                    idx = owners.index(body)
-                    owners.pop(idx)
-                    self.loop.release(idx)
+                    if body in owners:
+                        idx = owners.index(body)
+                        owners.pop(idx)
+                        self.loop.release(idx)
+                    # (a handler that is NOT suspended where the machine suspends it: nothing to release; the history goes on and
+                    # is judged by the statement — the machine will differ)
                     moved = body
                     events.append([f"m{moved}"])
                 self.loop.settle()
@@ -775,6 +778,11 @@ def run_overlap(res, rng, n_cases):
             [("s", [(54, 1)]), ("r", [(54, 2)]), ("x", 1), ("x", 0)],                       # last writer wins
             [("r", [(49, 1), (50, 1)]), ("s", [(50, 1), (49, 1)]), ("x", 0), ("x", 1), ("x", 0)],
             [("s", [(49, 1)]), ("x", 0), ("r", [(49, 1)])],                                 # no overlap: one request
+            # overlapping announcements with DIFFERENT versions for one kind, then released in either order
+            [("r", [(49, 2)]), ("r", [(49, 3)]), ("x", 0), ("x", 1)],
+            [("s", [(54, 5)]), ("r", [(54, 6)]), ("x", 0), ("x", 1)],
+            [("s", [(54, 5)]), ("r", [(54, 6)]), ("s", [(54, 7)]), ("x", 2), ("x", 1), ("x", 0)],
+            [("s", [(49, 0)]), ("x", 0), ("r", [(49, 1), (54, 1)]), ("s", [(49, 2), (54, 1)]), ("x", 1), ("x", 2), ("x", 1), ("x", 2)],
         ]
         for ops in fixed:
             ev, obs, _ = runner.run_case(ops)
@@ -791,7 +799,9 @@ def run_overlap(res, rng, n_cases):
                 if pending and rng.random() < 0.5:
                     ops.append(("x", rng.choice(pending)))
                 elif n < 5:
-                    body = [(k, rng.choice([1, 1, 2])) for k in rng.sample(kinds, rng.randint(1, len(kinds)))]
+                    vmode = rng.random()
+                    body = [(k, rng.choice([1, 1, 2]) if vmode < 0.5 else n + rng.choice([0, 0, 1]) if vmode < 0.85 else rng.choice([0, 1, 65535]))
+                            for k in rng.sample(kinds, rng.randint(1, len(kinds)))]
                     if rng.random() < 0.1:
                         body.insert(rng.randrange(len(body) + 1), (rng.choice(FOREIGN + UNKNOWN[:3]), 1))
                     ops.append((rng.choice("sr"), body))
@@ -806,6 +816,43 @@ def run_overlap(res, rng, n_cases):
     finally:
         runner.close()
     check_overlap(res, cases)
+
+
+def overlap_statement(ops, obs):
+    """The statement on an overlap history, from the observations alone (sound for ANY interleaving): take an announcement made
+    of supported request kinds only.  Its handler runs at once up to the FIRST entry (k, v) whose version differs from the record
+    as observed just before the announcement ("a version different from the one the library last recorded"), and suspends there
+    in Request.create.  Once that handler has finished: (a) the record of k has shown v at some observation after the
+    announcement ("the new version is recorded"), and (b) at least one request of kind k was queued at or after it."""
+    out = []
+    unsup = set()
+    n_task = -1
+    for i, (kind, body) in enumerate(ops):
+        if kind == "e":
+            unsup = set(body)
+            continue
+        if kind not in "sr":
+            continue
+        n_task += 1
+        if any(k not in REQUESTS for k, _ in body):
+            continue
+        before = obs[i - 1].split("/") if i > 0 else ["-", "-", "-"]
+        rec = dict(tuple(int(x) for x in e.split(":")) for e in before[1].split(",")) if before[1] != "-" else {}
+        first = next(((k, v) for k, v in dict(body).items() if k not in unsup and rec.get(k) != v), None)
+        if first is None:
+            continue
+        phases = obs[-1].split("/")[2].split(",")
+        if n_task >= len(phases) or phases[n_task] != "f":
+            continue                       # its handler is still suspended at the end of the history
+        k, v = first
+        shown = any(f"{k}:{v}" in o.split("/")[1].split(",") for o in obs[i:])
+        q_before = [] if before[0] == "-" else before[0].split(",")
+        q_end = [] if obs[-1].split("/")[0] == "-" else obs[-1].split("/")[0].split(",")
+        if not shown:
+            out.append(f"op #{i}: kind {k} announced with version {v} (recorded before: {rec.get(k)}), handler finished, but version {v} was never on record")
+        elif q_end.count(str(k)) - q_before.count(str(k)) < 1:
+            out.append(f"op #{i}: kind {k} announced with version {v} (recorded before: {rec.get(k)}), no request of kind {k} queued at or after it")
+    return out
 
 
 def parse_overlap(text):
@@ -835,6 +882,11 @@ def check_overlap(res, cases):
             q, r, t = st.split("/")
             t = ",".join("w" if x.startswith("w") else "c" if x == "c" else "f" for x in t.split(",")) if t != "-" else "-"
             model.append(f"{q}/{r}/{t}")
+        for msg in overlap_statement(ops, obs):
+            res.fail("spec", dict(case="overlap " + text, label=label), "every announcement whose version differs from the record is refreshed and recorded",
+                     dict(observed=obs, what=msg), "an announcement with a version different from the recorded one queued no refresh / was never recorded")
+        if any(len(set(v for kk, b in ops if kk in "sr" for a, v in b if a == k0)) > 1 for k0 in set(a for kk, b in ops if kk in "sr" for a, _ in b)):
+            res.count("overlap: one kind announced with DIFFERENT versions in one history")
         if model != obs:
             k = next((i for i, (a, b) in enumerate(zip(model, obs)) if a != b), 0)
             res.fail("corr", dict(case="overlap " + text, label=label), model[k:k + 1], obs[k:k + 1],
